@@ -194,7 +194,12 @@ pub struct Def {
     pub utf8: bool,
     /// outcome of callback `k` on the match inp[s..e]
     pub decide: fn(k: u8, inp: &[u8], s: usize, e: usize) -> Decision,
+    /// the definition's callbacks record their invocations in the extras (CbLog)
+    pub log_callbacks: bool,
+    /// id of the *default* error for an error item with this span (0 unless an error callback is configured)
+    pub default_err: fn(start: usize, end: usize) -> u8,
 }
+pub fn plain_default(_s: usize, _e: usize) -> u8 { 0 }
 
 #[derive(Clone, Copy, Debug, PartialEq, Eq)]
 pub enum Decision { Emit(u8), DefaultError, Error(u8), Skip, EmitBumped(u8, usize) }
@@ -230,7 +235,7 @@ pub fn round_up(inp: &[u8], q: usize) -> usize {
 }
 
 /// outcome of ONE raw match attempt at position p (no skip chaining): (Some((pattern index, end)) | None, error end)
-pub const MAX_PATS: usize = 12;
+pub const MAX_PATS: usize = 16;
 
 pub fn attempt(def: &Def, inp: &[u8], p: usize) -> (Option<(usize, usize)>, usize, bool) {
     let n = inp.len();
@@ -277,33 +282,39 @@ pub fn attempt(def: &Def, inp: &[u8], p: usize) -> (Option<(usize, usize)>, usiz
 }
 
 /// the item `next()` must produce when the previous item ended at p (skips chained)
-pub fn expected_item(def: &Def, inp: &[u8], p: usize, max_skips: usize) -> Exp {
+pub fn expected_item(def: &Def, inp: &[u8], p: usize, max_skips: usize) -> Exp { expected_item_cb(def, inp, p, max_skips).0 }
+
+/// (item, number of pattern-callback invocations the attempt chain makes, span the last callback observed)
+pub fn expected_item_cb(def: &Def, inp: &[u8], p: usize, max_skips: usize) -> (Exp, u8, usize, usize) {
     let n = inp.len();
     let mut pos = p;
     let mut guard = 0;
+    let mut cbs: u8 = 0;
+    let mut cs = 0usize;
+    let mut ce = 0usize;
     // `max_skips` bounds the number of skipped matches in front of the item (0 for skip-free definitions; the number of
     // skip bytes of the skeleton otherwise), so that the model checker does not unroll attempts that cannot happen
     while guard <= max_skips {
-        if pos >= n { return Exp::End; }
+        if pos >= n { return (Exp::End, cbs, cs, ce); }
         let (m, err_end, tie) = attempt(def, inp, pos);
-        if tie { return Exp::Ambiguous; }
+        if tie { return (Exp::Ambiguous, cbs, cs, ce); }
         match m {
-            None => return Exp::Err { eid: 0, start: pos, end: err_end },
+            None => return (Exp::Err { eid: 0, start: pos, end: err_end }, cbs, cs, ce),
             Some((j, e)) => match def.pats[j].act {
-                Act::Tok(v) => return Exp::Tok { vid: v, start: pos, end: e },
+                Act::Tok(v) => return (Exp::Tok { vid: v, start: pos, end: e }, cbs, cs, ce),
                 Act::Skip => { pos = e; }
-                Act::Cb(k) => match (def.decide)(k, inp, pos, e) {
-                    Decision::Emit(v) => return Exp::Tok { vid: v, start: pos, end: e },
-                    Decision::EmitBumped(v, b) => return Exp::Tok { vid: v, start: pos, end: e + b },
-                    Decision::DefaultError => return Exp::Err { eid: 0, start: pos, end: e },
-                    Decision::Error(x) => return Exp::Err { eid: x, start: pos, end: e },
+                Act::Cb(k) => { cbs += 1; cs = pos; ce = e; match (def.decide)(k, inp, pos, e) {
+                    Decision::Emit(v) => return (Exp::Tok { vid: v, start: pos, end: e }, cbs, cs, ce),
+                    Decision::EmitBumped(v, b) => return (Exp::Tok { vid: v, start: pos, end: e + b }, cbs, cs, ce),
+                    Decision::DefaultError => return (Exp::Err { eid: 0, start: pos, end: e }, cbs, cs, ce),
+                    Decision::Error(x) => return (Exp::Err { eid: x, start: pos, end: e }, cbs, cs, ce),
                     Decision::Skip => { pos = e; }
-                },
+                } },
             },
         }
         guard += 1;
     }
-    Exp::End
+    (Exp::End, cbs, cs, ce)
 }
 
 // ---------------------------------------------------------------------------------------------------------
